@@ -188,6 +188,10 @@ Definition begin_op (w : world) (t : tid) (op : libcall) (rest : list libcall) :
   | SemTryWait => goto w1 t SemTryP
   | ThStart c => if handle w c then finish w1 t 0 else goto w1 t (ThStartP c)
   | ThJoin c => if handle w c then goto w1 t (ThJoinP c) else finish w1 t 0
+  (* Thread::start, pthread_create fails: start() returns false (also when it is refused before the create because the object
+     already has a thread); the thread-local handle `pthread_t thread` is not committed, nothing shared is touched.  The failing
+     create creates nothing and changes nothing any other thread can see, so it needs no move of its own. *)
+  | ThStartF c => finish w1 t 0
   | CsEnter => finish (set_occ w1 (occ w + 1)) t (occ w + 1)
   | CsLeave => finish (set_occ w1 (occ w - 1)) t (occ w - 1)
   end.
